@@ -47,6 +47,11 @@ func BracesSeq(cfg *Config, word *syntax.Word) iter.Seq2[*syntax.Word, error] {
 		const limit = 16 << 10
 		count := 0
 		bracesSeqRec(word, func(w *syntax.Word) bool {
+			if len(w.Parts) == 0 {
+				// An empty result such as the first of {,a} expands to
+				// no field at all; it does not count towards the limit.
+				return yield(w, nil)
+			}
 			count++
 			if count > limit {
 				yield(nil, fmt.Errorf("brace expansion would exceed %d elements", limit))
